@@ -97,6 +97,10 @@ func newBuilder(req *http.Request, client bool, collector Collector) (*builder, 
 
 // add adds the given event to the trace being built.
 func (b *builder) add(event Event) {
+	if b == nil {
+		// e.g. a data tracer for a response whose headers were never seen
+		return
+	}
 	var finish bool
 	var finishedTrace Trace
 	defer func() {
